@@ -407,6 +407,11 @@ func init() {
 				multiB("[unstake(k0),send,send,send,send]", txE(chain.TxSpec{Msg: "unstake", From: 0}), send(3, 2), send(4, 2), send(3, 4), send(4, 3)),
 			}
 			scs = append(scs, Scenario{Name: "2val-block-gas-limit", Cfg: gl, Alphabet: gasAlpha, K: 2, D: 2, Tail: 1})
+			// a limit no block of the alphabet reaches: gas must not carry over from block to block, from
+			// instance to instance or from earlier work of the process
+			gh := gl
+			gh.MaxBlockGas = 5000000
+			scs = append(scs, Scenario{Name: "2val-block-gas-limit-never-reached", Cfg: gh, Alphabet: gasAlpha, K: 2, D: 2, Tail: 1})
 			// a genesis with history, as a state export produces it: signing infos and missed-block
 			// arrays for the validators and for six former validators
 			hist := gs[0]
